@@ -9,6 +9,7 @@ From FB.Gen Require Import JsonUtilGen.
 From FB.Spec Require Import Prog.
 From FB.Model Require Import Types Monad Persist Build.
 From FB.Proofs Require Import CleanLaws.
+From FB.Proofs Require CacheGenLaws.   (* T1g: the model routines are equal to the translation of the source (Gen/CacheGen.v) *)
 Import ListNotations.
 
 Theorem C15_build_refused_no_effect : forall cf nm vers root w w' e,
